@@ -1,5 +1,6 @@
 from __future__ import annotations
 
+import os
 from typing import Any, List
 
 import torch
@@ -16,6 +17,10 @@ from torchtree.core.utils import (
 )
 from torchtree.inference.mcmc.operator import MCMCOperator
 from torchtree.typing import ID
+
+# Runtime-verification hook: when TORCHTREE_VERIF=1 every iteration of MCMC.run
+# appends one transition record to this list (it stays None otherwise).
+_VERIF_TRACE = [] if os.environ.get("TORCHTREE_VERIF") == "1" else None
 
 
 @register_class
@@ -83,6 +88,9 @@ class MCMC(Identifiable, Runnable):
             index_operator = torch.distributions.Categorical(weights).sample().item()
             operator = self._operators[index_operator]
 
+            if _VERIF_TRACE is not None:
+                _verif_carried = float(log_joint)
+
             hastings_ratio = operator.step()
 
             if torch.isinf(hastings_ratio):
@@ -107,6 +115,23 @@ class MCMC(Identifiable, Runnable):
                 operator.accept()
             else:
                 operator.reject()
+
+            if _VERIF_TRACE is not None:
+                _VERIF_TRACE.append(
+                    {
+                        "epoch": self._epoch,
+                        "operator": operator.id,
+                        "log_joint_carried": _verif_carried,
+                        "log_joint_proposed": None
+                        if torch.isinf(hastings_ratio)
+                        else float(log_joint_proposed),
+                        "hastings_ratio": float(hastings_ratio),
+                        "log_alpha": float(log_alpha),
+                        "acceptance_prob": float(acceptance_prob),
+                        "accepted": bool(accepted),
+                        "log_joint_after": float(log_joint),
+                    }
+                )
 
             if self.every != 0 and self._epoch % self.every == 0:
                 step_size = 0
